@@ -320,18 +320,30 @@ func c13CLI(c *Ctx, dict []string) {
 	for _, rp := range append(append([]struct {
 		name string
 		f    Flags
-	}{}, c13Replacements[:3]...), c13Replacements[5:]...) {
+	}{}, c13Replacements[:3]...), append(c13Replacements[5:], struct {
+		name string
+		f    Flags
+	}{"ZZ-with-encryption", Flags{R: "ZZ", Y: true}}, struct {
+		name string
+		f    Flags
+	}{"X-with-numbers-booleans-ips", Flags{R: "X", N: true, B: true, I: true}})...) {
 		f := rp.f
 		if mode == 0 {
 			f.W = true
 		} else {
 			f.F = []string{"dbq.cq"}
 		}
-		args := append([]string{"redact", inPath}, f.CLIArgs("")...)
+		args := append([]string{"redact", inPath}, f.CLIArgs(writeKeyFile(dir))...)
+		if f.Y {
+			args = append(args, "--outputFile", filepath.Join(dir, "out.log"))
+		}
 		res, err := runCLI(CLIRun{Bin: c.CLI, Args: args, Dir: dir})
 		if err != nil || res.Exit != 0 {
 			c.HarnessError("C13 CLI run failed: %v exit=%d stderr=%s", err, res.Exit, res.Stderr)
 			return
+		}
+		if f.Y {
+			res.Stdout, _ = os.ReadFile(filepath.Join(dir, "out.log"))
 		}
 		outLines := strings.Split(strings.TrimSuffix(string(res.Stdout), "\n"), "\n")
 		if len(outLines) != len(names) {
